@@ -99,4 +99,4 @@ func Manifest(dir string) []byte {
 }
 
 // HookCommits lists the /repo commits that add build-tag-guarded hooks.
-var HookCommits = []string{}
+var HookCommits = []string{"f2ec15c", "dc083ae", "ad88cd1", "c9191c6", "cb22839"}
